@@ -26,7 +26,7 @@ ASSUMPTIONS = [
 ]
 REQUIRED = ['schedules_run', 'preemptions_inside_window', 'loop_blocked_in_idle_wait', 'foreign_fire_woke_loop', 'rlock_double_instances',
             'event_double_instances', 'mechanism_fallback', 'mechanism_Select', 'mechanism_EPoll', 'timer_present', 'generator_task_present',
-            'two_firers', 'second_manager_idling']
+            'two_firers', 'second_manager_idling', 'poller_cleaned_up_a_descriptor_closed_behind_its_back']
 REQUIRED_OBLIGATIONS = ['NO_LOST_WAKEUP', 'EXACTLY_ONCE', 'THREAD_FIFO', 'LOOP_ENDS_AFTER_STOP']
 WORKER_TIMEOUT = {'quick': 600, 'thorough': 2400}
 ENGINE = 'controlled-scheduler'
@@ -71,6 +71,18 @@ def build(scn, S):
     mech = scn['mech']
     if mech != 'fallback':
         getattr(pollers, mech)().register(app)
+    if scn.get('stale_fd') and mech != 'fallback':
+        # descriptors of the application next to the poller's own wake-up pipe: one that stays open and silent, and one that its owner
+        # closed without telling the poller (the poller has to clean that up by itself - and must keep hearing the wake-up pipe afterwards)
+        import socket as _socket
+        holder = BaseComponent(channel='holder').register(app)
+        a, b_ = _socket.socketpair()
+        c, d = _socket.socketpair()
+        st['socks'] = [a, b_, c, d]
+        poller = [x for x in app.components if isinstance(x, pollers.BasePoller)][0]
+        poller.addReader(holder, a)
+        poller.addReader(holder, c)
+        c.close()
     if scn.get('timer'):
         Timer(1000.0, Event.create('tmr'), persist=True).register(app)
     if scn.get('second_manager'):
@@ -151,6 +163,11 @@ def run_schedule(scn, plan=(), seed=None, switch_prob=0.0, record=False):
         S.random = random.Random(seed)
         S.switch_prob = switch_prob
     finished = S.run('L', plan=plan, timeout=120)
+    for sk in st.get('socks', ()):
+        try:
+            sk.close()
+        except OSError:
+            pass
     res = {'finished': finished, 'violation': S.violation, 'deadlock': S.deadlock, 'dispatched': list(st['dispatched']),
            'switches': list(S.switches), 'points': S.n_points, 'loop_blocked': st.get('loop_blocked', 0),
            'virtual_timeouts': S.virtual_timeouts, 'errors': {t.name: t.error for t in S.threads.values() if t.error},
@@ -205,7 +222,8 @@ def scenarios(tier):
         return [{'mech': 'fallback', 'firers': 1, 'events': 1}, {'mech': 'fallback', 'firers': 1, 'events': 2, 'timer': True},
                 {'mech': 'fallback', 'firers': 1, 'events': 1, 'task': True}, {'mech': 'fallback', 'firers': 2, 'events': 2},
                 {'mech': 'Select', 'firers': 1, 'events': 1}, {'mech': 'EPoll', 'firers': 1, 'events': 2, 'timer': True},
-                {'mech': 'fallback', 'firers': 1, 'events': 1, 'second_manager': True}]
+                {'mech': 'fallback', 'firers': 1, 'events': 1, 'second_manager': True},
+                {'mech': 'Select', 'firers': 1, 'events': 2, 'stale_fd': True}, {'mech': 'Poll', 'firers': 1, 'events': 1, 'stale_fd': True}]
     out = []
     for mech in ['fallback', 'Select', 'Poll', 'EPoll']:
         out.append({'mech': mech, 'firers': 1, 'events': 1})
@@ -214,6 +232,9 @@ def scenarios(tier):
         out.append({'mech': mech, 'firers': 2, 'events': 2})
         out.append({'mech': mech, 'firers': 2, 'events': 3, 'timer': True, 'task': True})
         out.append({'mech': mech, 'firers': 1, 'events': 2, 'second_manager': True})
+        if mech != 'fallback':
+            out.append({'mech': mech, 'firers': 1, 'events': 2, 'stale_fd': True})
+            out.append({'mech': mech, 'firers': 2, 'events': 2, 'stale_fd': True, 'task': True})
     return out
 
 
@@ -273,6 +294,8 @@ def explore(b, scn, plans_iter, S, in_window):
             b.reached('two_firers')
         if scn.get('second_manager'):
             b.reached('second_manager_idling')
+        if scn.get('stale_fd') and res['loop_blocked']:
+            b.reached('poller_cleaned_up_a_descriptor_closed_behind_its_back')
         b.reached('virtual_timeouts', res['virtual_timeouts'])
         if not res['stop_dispatched_when_run_returned']:
             b.reached('observed_run_returned_before_stopped_dispatched_after_foreign_stop')
